@@ -15,3 +15,11 @@ PROP = dict(
     stages=[dict(kind="walk", name="cluster", module="Cluster", pkg="route", test="TestVerifCluster", harness=["route/cluster_test.go"],
                  cfg={"quick": "MC_Cluster_q.cfg", "thorough": "MC_Cluster_big.cfg"}, budget={"quick": 45, "thorough": 600}, maxwalk=30)],
 )
+
+# coverage extension CX3 (lib/ext/CX3.py, DESIGN.md section 0.5): System.tla - two (thorough: three) REAL nodes end to end, the hop between them over the
+# real wire path (peer DirectTransmission -> zstd msgpack POST -> the owner's real peer batch handler). Cluster-wide form of "exactly one route":
+# every span sent to ANY node is forwarded to the owner at most one hop away, collected by the owner only, and reaches Honeycomb exactly once iff kept,
+# never as a probe, with the composed rate and the client's fields. (The rate / intactness columns of its projection restate C04/C20/C22 across the hop;
+# a divergence in them is reported here because the hop is where they can break.)
+import extstages  # noqa: E402
+PROP["stages"] += extstages.pick("CX3", ["system-base", "system-stress", "system-stress3", "system-trio", "system-live", "system-mc"])
